@@ -144,6 +144,9 @@ func cmdVerify(args []string) {
 		for _, d := range u.DeadRets {
 			fmt.Println("    UNREACHABLE RETURN:", d)
 		}
+		for _, d := range u.Stale {
+			fmt.Println("    STALE CLAUSE:", d)
+		}
 		for _, o := range u.Obs {
 			if !filter(o) {
 				continue
